@@ -15,6 +15,7 @@ import (
 	"github.com/comdex-official/comdex/app/wasm/bindings"
 	assettypes "github.com/comdex-official/comdex/x/asset/types"
 	auctiontypes "github.com/comdex-official/comdex/x/auction/types"
+	auctionsV2 "github.com/comdex-official/comdex/x/auctionsV2"
 	auctionsV2types "github.com/comdex-official/comdex/x/auctionsV2/types"
 	collectortypes "github.com/comdex-official/comdex/x/collector/types"
 	esm "github.com/comdex-official/comdex/x/esm"
@@ -137,13 +138,19 @@ func c01Dec(s string) sdk.Dec { return sdk.MustNewDecFromStr(s) }
 func (w *c01World) emitProducts() {
 	eps, _ := w.app.AssetKeeper.GetPairsVaults(w.ctx)
 	for _, e := range eps {
-		p, _ := w.app.AssetKeeper.GetPair(w.ctx, e.PairId)
-		ain, _ := w.app.AssetKeeper.GetAsset(w.ctx, p.AssetIn)
-		aout, _ := w.app.AssetKeeper.GetAsset(w.ctx, p.AssetOut)
-		w.tr.Line("vault.product", u(e.Id), u(e.AppId), u(p.AssetIn), u(p.AssetOut), ain.Decimals.String(), aout.Decimals.String(),
-			e.MinCr.BigInt().String(), e.DebtFloor.String(), e.DebtCeiling.String(), e.DrawDownFee.BigInt().String(), e.ClosingFee.BigInt().String(),
-			fmt.Sprint(e.IsStableMintVault), fmt.Sprint(e.IsVaultActive), fmt.Sprint(e.AssetOutOraclePrice), u(e.AssetOutPrice))
+		w.emitProduct("vault.product", e)
 	}
+}
+
+// emitProduct prints the configuration the handlers will read for one product (`vault.product` at the start of a history,
+// `vault.reconfig` after the configuration was changed through the real update paths).
+func (w *c01World) emitProduct(kind string, e assettypes.ExtendedPairVault) {
+	p, _ := w.app.AssetKeeper.GetPair(w.ctx, e.PairId)
+	ain, _ := w.app.AssetKeeper.GetAsset(w.ctx, p.AssetIn)
+	aout, _ := w.app.AssetKeeper.GetAsset(w.ctx, p.AssetOut)
+	w.tr.Line(kind, u(e.Id), u(e.AppId), u(p.AssetIn), u(p.AssetOut), ain.Decimals.String(), aout.Decimals.String(),
+		e.MinCr.BigInt().String(), e.DebtFloor.String(), e.DebtCeiling.String(), e.DrawDownFee.BigInt().String(), e.ClosingFee.BigInt().String(),
+		fmt.Sprint(e.IsStableMintVault), fmt.Sprint(e.IsVaultActive), fmt.Sprint(e.AssetOutOraclePrice), u(e.AssetOutPrice))
 }
 
 func (w *c01World) acct(addr string) int {
@@ -168,16 +175,21 @@ func c01NewWorld(t *testing.T, tr *Trace, rng *Rng) *c01World {
 	debtDec := []int64{6, 6, 12, 8}[rng.Intn(4)]
 	aD := w.addAsset("CMST", "ucmst", debtDec, true)
 	aS := w.addAsset("USDC", "uusdc", []int64{6, 6, 12, 18, 8}[rng.Intn(5)], false)
+	// a second debt asset (so that supply / principal / the redemption register are kept per denom, and an app's emergency
+	// redemption has several debt assets)
+	aE := w.addAsset("EURX", "ueurx", []int64{6, 8, 18}[rng.Intn(3)], true)
 	w.setPrice(aA, uint64(1+rng.Intn(30))*500000, true)
 	w.setPrice(aB, uint64(1+rng.Intn(3000))*1000000, true)
 	w.setPrice(aD, 1000000, true)
 	w.setPrice(aS, 1000000, true)
+	w.setPrice(aE, uint64(900000+rng.Intn(300000)), true)
 	app1 := w.addApp("appone")
 	app2 := w.addApp("apptwo")
 	w.apps = []uint64{app1, app2}
 	pAD := w.addPair(aA, aD)
 	pBD := w.addPair(aB, aD)
 	pSD := w.addPair(aS, aD)
+	pAE := w.addPair(aA, aE)
 	base := bindings.MsgAddExtendedPairsVault{
 		StabilityFee: c01Dec("0.02"), ClosingFee: c01Dec("0"), LiquidationPenalty: c01Dec("0.15"), DrawDownFee: c01Dec("0.01"),
 		IsVaultActive: true, DebtCeiling: sdk.NewInt(1_000_000_000_000), DebtFloor: sdk.NewInt(1_000_000), MinCr: c01Dec("1.5"),
@@ -205,6 +217,12 @@ func c01NewWorld(t *testing.T, tr *Trace, rng *Rng) *c01World {
 	p4.DebtFloor = sdk.NewInt(int64(1 + rng.Intn(3_000_000)))
 	p4.DrawDownFee = c01Dec([]string{"0.01", "0.000000000000000001", "0.999", "0.3"}[rng.Intn(4)])
 	w.addProduct("ATOMB", app2, pAD, p4)
+	p5 := base
+	p5.ClosingFee = c01Dec([]string{"0", "0.003"}[rng.Intn(2)])
+	p5.DrawDownFee = c01Dec([]string{"0", "0.002"}[rng.Intn(2)])
+	p5.LiquidationPenalty = c01Dec([]string{"0.15", "0", "0.4"}[rng.Intn(3)])
+	p5.DebtFloor = sdk.NewInt(int64(1 + rng.Intn(2_000_000)))
+	w.addProduct("ATOME", app1, pAE, p5)
 	for _, a := range w.apps {
 		_ = w.app.Rewardskeeper.WhitelistAppIDVault(w.ctx, a)
 		// second-generation liquidation with Dutch auctions enabled for the app
@@ -254,10 +272,12 @@ func c01NewWorld(t *testing.T, tr *Trace, rng *Rng) *c01World {
 	// a sponsor funds the apps' liquidation reserve so that under-water auctions can close
 	sponsor := c01Addr(200)
 	for _, a := range w.apps {
-		amt := sdk.NewInt(1_000_000_000_000_000)
-		w.fund(sponsor, aD, amt)
-		if !w.deliver(liq2types.NewMsgAppReserveFundsRequest(sponsor.String(), a, aD, sdk.NewCoin(w.denomOf[aD], amt))) {
-			t.Fatal("cannot fund the app reserve")
+		for _, debt := range []uint64{aD, aE} {
+			amt := sdk.NewInt(1_000_000_000_000_000)
+			w.fund(sponsor, debt, amt)
+			if !w.deliver(liq2types.NewMsgAppReserveFundsRequest(sponsor.String(), a, debt, sdk.NewCoin(w.denomOf[debt], amt))) {
+				t.Fatal("cannot fund the app reserve")
+			}
 		}
 	}
 	return w
@@ -626,6 +646,13 @@ func (w *c01World) oneOp() {
 			w.tr.Count("op:esm")
 		}
 	}
+	if r.Chance(5) {
+		w.reconfigOp()
+		return
+	}
+	if len(w.openAuctions()) > 0 && r.Chance(12) && w.auctionBlock2Op() {
+		return
+	}
 	if w.esmDue() && r.Chance(25) {
 		w.esmBlockOp()
 		return
@@ -647,6 +674,25 @@ func (w *c01World) oneOp() {
 			return
 		}
 		w.bidOp1(user)
+		return
+	}
+	if p.isStable && r.Chance(70) {
+		w.stableOp(user, p, app)
+		return
+	}
+	if r.Chance(2) {
+		// a message of the wrong kind for the product: an ordinary create against a stable-mint product, a stable mint
+		// against an ordinary product (`IsStableMintVault` is checked by every handler of either family)
+		amt := w.amount(2)
+		env := w.env(app, p.id, 0, false)
+		if p.isStable {
+			ok := w.deliver(&vaulttypes.MsgCreateRequest{From: user.String(), AppId: app, ExtendedPairVaultId: p.id, AmountIn: amt.MulRaw(3), AmountOut: amt})
+			emit("create", un, u(app), u(p.id), amt.MulRaw(3).String(), amt.String(), env, ok)
+		} else {
+			ok := w.deliver(&vaulttypes.MsgCreateStableMintRequest{From: user.String(), AppId: app, ExtendedPairVaultId: p.id, Amount: amt})
+			emit("stableCreate", un, u(app), u(p.id), amt.String(), "-", env, ok)
+		}
+		w.tr.Count("op:wrong-kind-for-product")
 		return
 	}
 	switch c := r.Intn(100); {
@@ -1538,12 +1584,354 @@ func TestC01(t *testing.T) {
 	seqs := scale(30, 400)
 	ops := scale(120, 300)
 	c01Corpus(t, tr)
+	c01CorpusTrigger2(t, tr)
 	for s := 0; s < seqs; s++ {
 		w := c01NewWorld(t, tr, rng)
 		w.state()
 		n := rng.Range(ops/2, ops)
 		for i := 0; i < n; i++ {
 			w.oneOp()
+		}
+	}
+}
+
+// ---- stable-mint messages, directed --------------------------------------------------------------------------------
+
+// stableOp: one stable-mint message with amounts that hit every branch under the product's fee / decimals combination:
+// create when the product has no stable-mint vault yet, else deposits (converted amount at the debt floor and at the
+// remaining ceiling, ± 1) and withdrawals (everything, a fraction, the vault's whole collateral converted ± 1, the debt floor ± 1,
+// an amount whose fee share leaves nothing to burn).
+func (w *c01World) stableOp(user sdk.AccAddress, p c01Product, app uint64) {
+	r := w.rng
+	un := fmt.Sprint(w.acct(user.String()))
+	emit := func(kind string, a1, a2, a3, a4, a5 string, env string, ok bool) {
+		w.tr.Count("op:" + kind + ":" + c01Outcome(ok))
+		w.tr.Line("vault.msg", kind, a1, a2, a3, a4, a5, env, c01Outcome(ok))
+		w.state()
+	}
+	ep, _ := w.app.AssetKeeper.GetPairsVault(w.ctx, p.id)
+	var sv *vaulttypes.StableMintVault
+	for _, x := range w.app.VaultKeeper.GetStableMintVaults(w.ctx) {
+		if x.ExtendedPairVaultID == p.id {
+			y := x
+			sv = &y
+		}
+	}
+	decIn, decOut := w.decOf[p.assetIn], w.decOf[p.assetOut]
+	// collateral amount whose conversion is `out` of the debt asset (rounded down), and back
+	toIn := func(out sdk.Int) sdk.Int { return out.Mul(decIn).Quo(decOut) }
+	minted, _ := w.app.VaultKeeper.CheckAppExtendedPairVaultMapping(w.ctx, p.app, p.id)
+	ensure := func(asset uint64, amt sdk.Int) {
+		if !amt.IsPositive() || amt.GTE(sdk.NewInt(1).MulRaw(1<<62)) {
+			return
+		}
+		if bal := w.app.BankKeeper.GetBalance(w.ctx, user, w.denomOf[asset]).Amount; bal.LT(amt) {
+			w.fund(user, asset, amt.Sub(bal))
+		}
+	}
+	env := w.env(app, p.id, 0, false)
+	mintAmount := func() sdk.Int {
+		amt := w.amount(1 + r.Intn(2)).Mul(decIn).QuoRaw(1_000_000)
+		switch r.Intn(6) {
+		case 0:
+			amt = toIn(ep.DebtFloor).AddRaw(int64(r.Intn(3) - 1))
+			w.tr.Count("stable:amount:floor-boundary")
+		case 1:
+			amt = toIn(ep.DebtCeiling.Sub(minted)).AddRaw(int64(r.Intn(3) - 1))
+			w.tr.Count("stable:amount:ceiling-boundary")
+		}
+		if !amt.IsPositive() {
+			amt = sdk.NewInt(1)
+		}
+		return amt
+	}
+	if sv == nil || r.Chance(4) {
+		amt := mintAmount()
+		if r.Chance(90) {
+			ensure(p.assetIn, amt)
+		}
+		ok := w.deliver(&vaulttypes.MsgCreateStableMintRequest{From: user.String(), AppId: app, ExtendedPairVaultId: p.id, Amount: amt})
+		emit("stableCreate", un, u(app), u(p.id), amt.String(), "-", env, ok)
+		return
+	}
+	sid := sv.Id
+	if r.Chance(3) {
+		sid += uint64(1 + r.Intn(2))
+	}
+	if r.Chance(45) {
+		amt := mintAmount()
+		if r.Chance(90) {
+			ensure(p.assetIn, amt)
+		}
+		ok := w.deliver(&vaulttypes.MsgDepositStableMintRequest{From: user.String(), AppId: app, ExtendedPairVaultId: p.id, Amount: amt, StableVaultId: sid})
+		w.tr.Count(fmt.Sprintf("stable:deposit:fee>0=%v:dec=%v:%s", ep.DrawDownFee.IsPositive(), c01DecRel(decIn, decOut), c01Outcome(ok)))
+		emit("stableDeposit", un, u(app), u(p.id), u(sid), amt.String(), env, ok)
+		return
+	}
+	// withdraw: `amt` of the debt asset is burnt (less the fee share), the converted collateral comes back
+	all := sv.AmountIn.Mul(decOut).Quo(decIn) // debt amount whose conversion is the vault's whole collateral
+	amt := all
+	switch r.Intn(7) {
+	case 0:
+		amt = all.AddRaw(int64(r.Intn(3) - 1))
+		w.tr.Count("stable:withdraw:whole-collateral-boundary")
+	case 1:
+		amt = ep.DebtFloor.AddRaw(int64(r.Intn(3) - 1))
+		w.tr.Count("stable:withdraw:floor-boundary")
+	case 2:
+		amt = sv.AmountOut.AddRaw(int64(r.Intn(3) - 1))
+	case 3:
+		amt = w.amount(r.Intn(4))
+	default:
+		amt = all.QuoRaw(int64(2 + r.Intn(6)))
+	}
+	if !amt.IsPositive() {
+		amt = sdk.NewInt(1)
+	}
+	if r.Chance(90) {
+		ensure(p.assetOut, amt)
+	}
+	ok := w.deliver(&vaulttypes.MsgWithdrawStableMintRequest{From: user.String(), AppId: app, ExtendedPairVaultId: p.id, Amount: amt, StableVaultId: sid})
+	w.tr.Count(fmt.Sprintf("stable:withdraw:fee>0=%v:dec=%v:%s", ep.DrawDownFee.IsPositive(), c01DecRel(decIn, decOut), c01Outcome(ok)))
+	emit("stableWithdraw", un, u(app), u(p.id), u(sid), amt.String(), env, ok)
+}
+
+func c01DecRel(a, b sdk.Int) string {
+	switch {
+	case a.LT(b):
+		return "in<out"
+	case a.GT(b):
+		return "in>out"
+	}
+	return "in=out"
+}
+
+// ---- configuration changes in the middle of a history ----------------------------------------------------------------
+
+// reconfigOp changes a product's configuration through the REAL update paths — the wasm binding `WasmUpdatePairsVault`
+// (stability / closing / draw-down fee, liquidation penalty, debt ceiling and floor, min CR, IsVaultActive) and the x/asset
+// governance proposal `UpdateAssetRecords` (decimals, IsOraclePriceRequired) — and, rarely, the stable-mint flag through the
+// keeper's setter (the way a genesis import or an upgrade handler writes it; no message or binding changes it). The new
+// configuration is printed (`vault.reconfig`) and is what every later handler reads. A change of the stability fee books
+// the interest accrued so far on every vault of the product (`VaultIterateRewards`): reported as one interest step per vault.
+func (w *c01World) reconfigOp() {
+	r := w.rng
+	p := w.products[r.Intn(len(w.products))]
+	ep, _ := w.app.AssetKeeper.GetPairsVault(w.ctx, p.id)
+	before := map[uint64]sdk.Int{}
+	for _, v := range w.app.VaultKeeper.GetVaults(w.ctx) {
+		before[v.Id] = v.InterestAccumulated
+	}
+	minted, _ := w.app.VaultKeeper.CheckAppExtendedPairVaultMapping(w.ctx, p.app, p.id)
+	what := ""
+	changed := []uint64{p.id}
+	if r.Chance(8) {
+		// x/asset proposal on one of the product's assets
+		aid := []uint64{p.assetIn, p.assetOut}[r.Intn(2)]
+		a, _ := w.app.AssetKeeper.GetAsset(w.ctx, aid)
+		na := a
+		if r.Chance(50) {
+			na.Decimals = sdk.NewIntFromBigInt(new(big.Int).Exp(big.NewInt(10), big.NewInt([]int64{0, 6, 8, 12, 18}[r.Intn(5)]), nil))
+			what = "asset-decimals"
+		} else {
+			na.IsOraclePriceRequired = !a.IsOraclePriceRequired
+			what = "asset-oracle-flag"
+		}
+		if err := w.app.AssetKeeper.UpdateAssetRecords(w.ctx, na); err != nil {
+			w.tr.Count("op:reconfig:" + what + ":err")
+			return
+		}
+		a2, _ := w.app.AssetKeeper.GetAsset(w.ctx, aid)
+		w.decOf[aid] = a2.Decimals
+		changed = nil
+		for _, q := range w.products {
+			if q.assetIn == aid || q.assetOut == aid {
+				changed = append(changed, q.id)
+			}
+		}
+	} else if r.Chance(4) {
+		ep.IsStableMintVault = !ep.IsStableMintVault
+		w.app.AssetKeeper.SetPairsVault(w.ctx, ep)
+		for i := range w.products {
+			if w.products[i].id == p.id {
+				w.products[i].isStable = ep.IsStableMintVault
+			}
+		}
+		what = "stable-flag"
+	} else {
+		upd := bindings.MsgUpdatePairsVault{AppID: ep.AppId, ExtPairID: ep.Id, StabilityFee: ep.StabilityFee, ClosingFee: ep.ClosingFee,
+			LiquidationPenalty: ep.LiquidationPenalty, DrawDownFee: ep.DrawDownFee, IsVaultActive: ep.IsVaultActive, MinCr: ep.MinCr,
+			DebtCeiling: ep.DebtCeiling, DebtFloor: ep.DebtFloor, MinUsdValueLeft: ep.MinUsdValueLeft}
+		switch r.Intn(10) {
+		case 0: // the ceiling is LOWERED below (or to, ± 1) what is outstanding
+			if r.Chance(50) {
+				upd.DebtCeiling = minted.AddRaw(int64(r.Intn(3) - 1))
+			} else {
+				upd.DebtCeiling = minted.MulRaw(int64(r.Intn(100))).QuoRaw(100)
+			}
+			if upd.DebtCeiling.IsNegative() {
+				upd.DebtCeiling = sdk.ZeroInt()
+			}
+			what = "ceiling-lowered"
+		case 1:
+			upd.DebtCeiling = ep.DebtCeiling.MulRaw(int64(2 + r.Intn(4))).AddRaw(int64(r.Intn(1000)))
+			what = "ceiling-raised"
+		case 2: // the floor is RAISED above some open vault's principal (or to it, ± 1)
+			upd.DebtFloor = ep.DebtFloor.MulRaw(2).AddRaw(1)
+			for _, v := range w.app.VaultKeeper.GetVaults(w.ctx) {
+				if v.ExtendedPairVaultID == p.id && r.Chance(60) {
+					upd.DebtFloor = v.AmountOut.AddRaw(int64(r.Intn(3)))
+				}
+			}
+			what = "floor-raised"
+		case 3:
+			upd.DebtFloor = ep.DebtFloor.QuoRaw(int64(2 + r.Intn(5)))
+			what = "floor-lowered"
+		case 4:
+			upd.MinCr = c01Dec([]string{"1.5", "2.3", "1.000000000000000001", "1.1", "1.75", "3"}[r.Intn(6)])
+			what = "mincr"
+		case 5:
+			upd.DrawDownFee = c01Dec([]string{"0", "0.001", "0.01", "0.05", "0.000000000000000001", "0.999", "0.3"}[r.Intn(7)])
+			what = "drawdown-fee"
+		case 6:
+			upd.ClosingFee = c01Dec([]string{"0", "0.005", "0.02", "0.1"}[r.Intn(4)])
+			what = "closing-fee"
+		case 7:
+			upd.StabilityFee = c01Dec([]string{"0", "0.02", "0.25", "0.5", "0.07"}[r.Intn(5)])
+			what = "stability-fee"
+		case 8:
+			upd.IsVaultActive = !ep.IsVaultActive
+			what = fmt.Sprintf("active=%v", upd.IsVaultActive)
+		default:
+			upd.LiquidationPenalty = c01Dec([]string{"0", "0.15", "0.05", "0.4"}[r.Intn(4)])
+			what = "liquidation-penalty"
+		}
+		if err := w.app.AssetKeeper.WasmUpdatePairsVault(w.ctx, &upd); err != nil {
+			w.tr.Count("op:reconfig:" + what + ":err")
+			return
+		}
+	}
+	w.tr.Count("op:reconfig:" + what)
+	for _, id := range changed {
+		e, _ := w.app.AssetKeeper.GetPairsVault(w.ctx, id)
+		w.emitProduct("vault.reconfig", e)
+	}
+	for _, v := range w.app.VaultKeeper.GetVaults(w.ctx) {
+		if d := v.InterestAccumulated.Sub(before[v.Id]); !d.IsZero() {
+			w.tr.Count("op:reconfig:interest-booked")
+			w.tr.Line("vault.msg", "interestCalc", u(v.AppId), u(v.Id), "-", "-", "-", "esm=0;past=0;brk=0;pin=-;pout=-;iota="+d.String(), "ok")
+		}
+	}
+	w.state()
+}
+
+// ---- second-generation auctions that run out ---------------------------------------------------------------------------
+
+// auctionBlock2Op runs the REAL auctionsV2 begin-blocker, usually after moving the clock past the end of an open auction of a
+// seized vault. Outside emergency shutdown the auction RESTARTS (new start price and end time; nothing in the vault books may
+// move, and a later bid settles it as usual). Under emergency shutdown `TriggerEsm` hands what is left back to the vault side:
+// one `esmReturn2` step per auction it worked on (recognised by the owner's vault having grown by the auction's remaining debt).
+func (w *c01World) auctionBlock2Op() bool {
+	r := w.rng
+	aucs := w.openAuctions()
+	if len(aucs) == 0 {
+		return false
+	}
+	a := aucs[r.Intn(len(aucs))]
+	if !w.now.After(a.EndTime) && r.Chance(75) {
+		w.now = a.EndTime.Add(time.Duration(1+r.Intn(600)) * time.Second)
+		w.height++
+		w.ctx = w.ctx.WithBlockHeight(w.height).WithBlockTime(w.now)
+	}
+	type pre struct {
+		orig, app, prod   uint64
+		owner             string
+		cur, curDebt, fee sdk.Int
+		had               bool
+		out               sdk.Int
+		ended, esm        bool
+	}
+	var pres []pre
+	for _, x := range w.openAuctions() {
+		lv, found := w.app.NewliqKeeper.GetLockedVault(w.ctx, x.AppId, x.LockedVaultId)
+		if !found || lv.InitiatorType != "vault" {
+			continue
+		}
+		st, f := w.app.EsmKeeper.GetESMStatus(w.ctx, x.AppId)
+		q := pre{orig: lv.OriginalVaultId, app: x.AppId, prod: lv.ExtendedPairId, owner: lv.Owner, cur: x.CollateralToken.Amount,
+			curDebt: x.DebtToken.Amount, fee: lv.FeeToBeCollected, ended: w.ctx.BlockTime().After(x.EndTime), esm: f && st.Status, out: sdk.ZeroInt()}
+		if m, ok := w.app.VaultKeeper.GetUserAppExtendedPairMappingData(w.ctx, lv.Owner, x.AppId, lv.ExtendedPairId); ok {
+			if v, ok2 := w.app.VaultKeeper.GetVault(w.ctx, m.VaultId); ok2 {
+				q.had, q.out = true, v.AmountOut
+			}
+		}
+		pres = append(pres, q)
+	}
+	if panicked, msg := try(func() { auctionsV2.BeginBlocker(w.ctx, w.app.NewaucKeeper) }); panicked {
+		w.tr.Count("op:auctionblock2:panic")
+		w.t.Logf("auctionsV2 begin-blocker panicked: %s", msg)
+	}
+	n, restarts := 0, 0
+	for _, q := range pres {
+		if q.ended && !q.esm {
+			restarts++
+		}
+		if !(q.ended && q.esm) {
+			continue
+		}
+		m, ok := w.app.VaultKeeper.GetUserAppExtendedPairMappingData(w.ctx, q.owner, q.app, q.prod)
+		if !ok {
+			continue
+		}
+		v, ok2 := w.app.VaultKeeper.GetVault(w.ctx, m.VaultId)
+		if !ok2 || !v.AmountOut.Equal(q.out.Add(q.curDebt)) {
+			continue
+		}
+		w.tr.Line("vault.msg", "esmReturn2", u(q.orig), fmt.Sprint(w.acct(q.owner)), q.cur.String(), q.curDebt.String(), q.fee.String(), "esm=1;past=0;brk=0;pin=-;pout=-;iota=0", "ok")
+		n++
+	}
+	w.tr.Count(fmt.Sprintf("op:auctionblock2:restarted=%d:esm-returned=%d", minInt(restarts, 3), minInt(n, 3)))
+	if n > 0 {
+		w.stateKind("vault.state.esmreturn2")
+	} else {
+		w.state()
+	}
+	return true
+}
+
+// c01CorpusTrigger2: the witness of the recorded finding on auctionsV2 `TriggerEsm` — a vault is seized by the second
+// generation, nobody bids, the app is shut down, the auction runs out: in EVERY following block the begin-blocker gives the
+// owner the auction's collateral and target debt again as vault entries while the coins stay in the auction module account.
+func c01CorpusTrigger2(t *testing.T, tr *Trace) {
+	w := c01NewWorld(t, tr, NewRng(515151))
+	w.state()
+	user := w.users[0]
+	p0 := &w.products[0]
+	out := sdk.NewInt(30_000_000)
+	in := w.crBoundaryIn(p0, out).MulRaw(2).AddRaw(10)
+	w.fund(user, p0.assetIn, in)
+	env := w.env(p0.app, p0.id, 0, false)
+	ok := w.deliver(&vaulttypes.MsgCreateRequest{From: user.String(), AppId: p0.app, ExtendedPairVaultId: p0.id, AmountIn: in, AmountOut: out})
+	w.tr.Line("vault.msg", "create", fmt.Sprint(w.acct(user.String())), u(p0.app), u(p0.id), in.String(), out.String(), env, c01Outcome(ok))
+	w.state()
+	vs := w.vaultsOf(user.String())
+	if !ok || len(vs) == 0 {
+		t.Fatal("corpus: cannot open the vault")
+	}
+	twa, _ := w.app.MarketKeeper.GetTwa(w.ctx, p0.assetIn)
+	w.setPrice(p0.assetIn, twa.Twa*45/100, true)
+	w.liquidate(w.users[1], vs[0], false, twa.Twa)
+	w.app.EsmKeeper.SetESMStatus(w.ctx, esmtypes.ESMStatus{AppId: p0.app, Status: true, StartTime: w.now, EndTime: w.now.Add(100 * time.Hour), SnapshotStatus: true})
+	for _, id := range w.assetIDs {
+		w.app.EsmKeeper.SetSnapshotOfPrices(w.ctx, p0.app, id, 1000000)
+	}
+	w.now = w.now.Add(2 * time.Hour)
+	for i := 0; i < 2; i++ {
+		w.height++
+		w.now = w.now.Add(6 * time.Second)
+		w.ctx = w.ctx.WithBlockHeight(w.height).WithBlockTime(w.now)
+		if w.auctionBlock2Op() {
+			w.tr.Count("corpus:v2-trigger-esm")
 		}
 	}
 }
